@@ -2,4 +2,6 @@
 #![allow(clippy::all)]
 #[cfg(kani)]
 mod c07;
+#[cfg(all(kani, feature = "thorough"))]
+mod lax_k;
 pub mod spec;
